@@ -76,6 +76,9 @@ def build_model(case):
     return m, M, symbols
 
 
+EXPORT_DEFAULTS = {'status': True, 'iterations': True, 'include_internal': False}      # as documented, on every export
+
+
 def check_table(res, df, obj, labels, flags, detail, where):
     """df must be the export of obj under flags."""
     names = [x for x in obj.names if flags['include_internal'] or not x.startswith('_')]
@@ -119,18 +122,23 @@ def check_model(case):
                 flags = {'status': status, 'iterations': iterations, 'include_internal': internal}
                 detail = f'{text!r} span={labels!r} extras={case.get("extras")} solved={case.get("solved")} flags={flags}'
                 for where, fn in (('to_dataframe', m.to_dataframe), ('model_to_dataframe', lambda **kw: tools.model_to_dataframe(m, **kw))):
-                    out = attempt(fn, **{k_: rep.bool(v_) for k_, v_ in flags.items()})       # np.bool_ / 0-1 flags mean the same
+                    # np.bool_ / 0-1 flags mean the same; a flag at its documented default may be left out
+                    out = attempt(fn, **rep.flags(flags, EXPORT_DEFAULTS))
                     if not out.ok:
                         res.fail(f'{where}/raised-{out.exc_name}', f'{detail}: {out!r}')
                         return res
                     check_table(res, out.value, m, labels, flags, detail, where)
                     if res.violations:
                         return res
-    # defaults: status and iterations on, internal off
-    out = attempt(m.to_dataframe)
-    if out.ok:
-        check_table(res, out.value, m, labels, {'status': True, 'iterations': True, 'include_internal': False},
-                    f'{text!r} span={labels!r} defaults', 'to_dataframe-defaults')
+    # defaults: status and iterations on, internal off (every flag left out / only one of them passed)
+    for where, fn in (('to_dataframe', m.to_dataframe), ('model_to_dataframe', lambda **kw: tools.model_to_dataframe(m, **kw))):
+        for given in ({}, {'status': False}, {'iterations': False}, {'include_internal': True}):
+            out = attempt(fn, **given)
+            if not out.ok:
+                res.fail(f'{where}-defaults/raised-{out.exc_name}', f'{text!r} span={labels!r} {given}: {out!r}')
+                return res
+            check_table(res, out.value, m, labels, dict(EXPORT_DEFAULTS, **given),
+                        f'{text!r} span={labels!r} only {given} passed', where + '-defaults')
     # import: the data columns of the model's own variables
     df = m.to_dataframe(status=False, iterations=False, include_internal=True)
     data = df[[c for c in M.NAMES]]
@@ -252,7 +260,8 @@ def check_linker(case):
                 flags = {'status': status, 'iterations': iterations, 'include_internal': internal}
                 detail = f'linker name={case.get("name", "_")!r} subs={[s["id"] for s in case["subs"]]} span={labels!r} flags={flags}'
                 for where, fn in (('to_dataframes', linker.to_dataframes), ('linker_to_dataframes', lambda **kw: tools.linker_to_dataframes(linker, **kw))):
-                    out = attempt(fn, **{k_: rep.bool(v_) for k_, v_ in flags.items()})       # np.bool_ / 0-1 flags mean the same
+                    # np.bool_ / 0-1 flags mean the same; a flag at its documented default may be left out
+                    out = attempt(fn, **rep.flags(flags, EXPORT_DEFAULTS))
                     if not out.ok:
                         res.fail(f'{where}/raised-{out.exc_name}', f'{detail}: {out!r}')
                         return res
@@ -266,6 +275,19 @@ def check_linker(case):
                         check_table(res, tables[sid], sm, labels, flags, detail + f' [submodel {sid}]', where + '/submodel')
                     if res.violations:
                         return res
+    for where, fn in (('to_dataframes', linker.to_dataframes), ('linker_to_dataframes', lambda **kw: tools.linker_to_dataframes(linker, **kw))):
+        for given in ({}, {'status': False}, {'iterations': False}, {'include_internal': True}):
+            out = attempt(fn, **given)
+            detail = f'linker name={case.get("name", "_")!r} subs={[s["id"] for s in case["subs"]]} span={labels!r} only {given} passed'
+            if not out.ok:
+                res.fail(f'{where}-defaults/raised-{out.exc_name}', f'{detail}: {out!r}')
+                return res
+            flags = dict(EXPORT_DEFAULTS, **given)
+            check_table(res, out.value[case.get('name', '_')], linker, labels, flags, detail + ' [linker table]', where + '-defaults/linker')
+            for sid, sm in subs.items():
+                check_table(res, out.value[sid], sm, labels, flags, detail + f' [submodel {sid}]', where + '-defaults/submodel')
+            if res.violations:
+                return res
     return res
 
 
